@@ -142,6 +142,10 @@ def finish(R, tier, meta, t0, root, write_evidence=True, quiet=False):
     for it in undecided:
         lines.append('ANALYSIS-BROKEN property=%s rule=%s instance=%s reason=%s' % (prop, it['rule'], it['instance'], it['detail']))
 
+    if os.environ.get('VERIF_SHOW_HOLDS'):
+        for it in R.items:
+            if it['verdict'] == HOLDS and (os.environ['VERIF_SHOW_HOLDS'] in ('1', it['rule'])):
+                lines.append('holds rule=%s instance=%s: %s' % (it['rule'], it['instance'], str(it['detail'])[:400]))
     n_obl = len(R.items)
     n_holds = sum(1 for it in R.items if it['verdict'] == HOLDS)
     wall = time.time() - t0
